@@ -422,7 +422,14 @@ let s_sched which g obs =
   end else
   if g "kind" = "window2" then begin
     let (model, pre, _post) = Hist.run_window2 g obs in
-    let v = Judge.judge_window2 obs pre in
+    let v = if (try g "sharedkey" = "1" with _ -> false) then
+        (* two entries with one address and one set of keys, one frame reported twice: recorded once per entry *)
+        (match Judge.split_obs obs with
+         | Some (_, _, dump) ->
+           let devs = Judge.parse_dump dump in
+           if List.exists (fun dd -> List.length dd.Judge.x_inbox > 1) devs then "bad:sched-copies-recorded-twice" else "ok"
+         | None -> "bad:sched-unreadable-observation")
+      else Judge.judge_window2 obs pre in
     (* bursts: the application is sent one event per device - each device's uplink once, nobody's twice *)
     let v = if v = "ok" && (try g "pubs" = "1" with _ -> false) then
         (match Judge.split_obs obs with
